@@ -6,6 +6,8 @@ mod ints;
 mod rt;
 #[path = "../../common/midi.rs"]
 mod midi;
+#[path = "../../common/msgs.rs"]
+mod msgs;
 #[path = "../../common/scan.rs"]
 mod scan;
 #[path = "../../common/cc14.rs"]
@@ -44,6 +46,26 @@ fn main() {
         "C05" => {
             let chk = Check::new("C05", PART, tier, "exploration");
             ints::run_c05(&chk, tier);
+            chk.finish()
+        }
+        "C01" => {
+            let chk = Check::new("C01", PART, tier, "exploration");
+            msgs::run_c01(&chk);
+            chk.finish()
+        }
+        "C02" => {
+            let chk = Check::new("C02", PART, tier, "exploration");
+            msgs::run_c02(&chk);
+            chk.finish()
+        }
+        "C03" => {
+            let chk = Check::new("C03", PART, tier, "exploration");
+            msgs::run_c03_sweep(&chk);
+            chk.finish()
+        }
+        "C06" => {
+            let chk = Check::new("C06", PART, tier, "exploration");
+            msgs::run_c06(&chk);
             chk.finish()
         }
         "C07" => {
